@@ -70,6 +70,27 @@ Theorem C12_delete_reference_holds : forall defs me now src ea,
 Proof. exact delete_reference_agree. Qed.
 Print Assumptions C12_delete_reference_holds.
 
+(* rows at the size limit: both paths measure bincode::serialized_size of the row AS SIGNED (key and
+   signature included: model/NodeSize.v says which bytes), hence the same number and the same side of
+   max_node_size, for creations and updates alike; a local refusal reports exactly that size; the bit
+   the row models of C12_write_holds carry is therefore the same on both sides; the limit is sharp *)
+Theorem C12_size_limit_holds : forall max update signed,
+  violations12 (CSize max update signed) (run_C12 (CSize max update signed)) = [].
+Proof. exact size_agree. Qed.
+Print Assumptions C12_size_limit_holds.
+
+Theorem C12_size_bit_transfers : forall max r me h,
+  h_too_big h = exceeds max (local_measured r) -> n_too_big (sent_row me h) = exceeds max (peer_measured r).
+Proof. exact size_bit_transfers. Qed.
+Print Assumptions C12_size_bit_transfers.
+
+Theorem C12_size_one_more_byte : forall r l,
+  sr_json_len r = Some l ->
+  node_size {| sr_room := sr_room r; sr_ent_len := sr_ent_len r; sr_json_len := Some (l + 1)%N; sr_bin_len := sr_bin_len r;
+               sr_key_len := sr_key_len r; sr_sig_len := sr_sig_len r |} = (node_size r + 1)%N.
+Proof. exact size_one_more_byte. Qed.
+Print Assumptions C12_size_one_more_byte.
+
 (* field values: outside class 2 (no scalar in a Json field, by literal or by default; defaults of
    the declared type) whatever creation request the local parser accepts — explicit nulls included —
    yields JSON content every peer's validate_json_for_entity accepts: any entity, any literals *)
